@@ -18,7 +18,7 @@ Definition bound_b (q : simple) (o : option f64) (need_fin : bool) : bool :=
   end.
 
 Definition qlocal_b (rf : str) (q : simple) : bool :=
-  negb (q_nullable q) && forallb (fun e => jdb (S (goval_depth e)) e) (q_enum q) &&
+  negb (q_nullable q) && forallb (fun e => jd_bf fin_b true true (S (goval_depth e)) e) (q_enum q) &&
   (Z.eqb (q_pattern q) 0 || o_re_ok OR (q_pattern q)) &&
   bound_b q (q_maximum q) true && bound_b q (q_minimum q) true && bound_b q (q_multiple_of q) false &&
   Bool.eqb (o_fmt_known OR rf) (o_fmt_known OR (q_format q)).
@@ -57,7 +57,7 @@ Proof.
   intros H. unfold qlocal_b in H. repeat (apply andb_true_iff in H; let H' := fresh "L" in destruct H as [H H']).
   unfold qlocal.
   split; [apply negb_true_iff; exact H|].
-  split; [apply (forallb_Forall' _ _ _ (fun e He => jd_b_sound fin_b false true _ e He) L4)|].
+  split; [apply (forallb_Forall' _ _ _ (fun e He => jd_bf_sound fin_b true true _ e He) L4)|].
   split; [apply orb_true_iff in L3; destruct L3 as [E | E]; [left; apply Z.eqb_eq; exact E | right; exact E]|].
   split; [intros m E; rewrite E in L2; cbn [bound_b negb orb] in L2; apply andb_true_iff in L2; destruct L2 as [A B]; split; [exact A | apply negb_true_iff; exact B]|].
   split; [intros m E; rewrite E in L1; cbn [bound_b negb orb] in L1; apply andb_true_iff in L1; destruct L1 as [A B]; split; [exact A | apply negb_true_iff; exact B]|].
